@@ -140,7 +140,7 @@ func main() {
 			fmt.Printf("%s %-90s %-12s %s %.2fs\n", mark, o.Obl.Name, o.Status, o.Res.Solver, o.Res.Seconds)
 			if *verbose && mark == "FAIL" {
 				fmt.Println("     src:", o.Obl.Src)
-				fmt.Println("     out:", truncate(strings.ReplaceAll(o.Res.Output, "\n", " | "), 1500))
+				fmt.Println("     out:", truncate(strings.ReplaceAll(o.Res.Output, "\n", " | "), 300))
 			}
 		}
 		for _, r := range results {
